@@ -24,6 +24,7 @@ func (k *Keys) GetCursorPos() (x, y int) {
 	// Echo the query and wait for the main key
 	// reading routine to send us the response back.
 	fmt.Print("\x1b[6n")
+	YieldPoint("cursor.queried")
 
 	// In order not to get stuck with an input that might be user-one
 	// (like when the user typed before the shell is fully started, and yet not having
@@ -33,7 +34,21 @@ func (k *Keys) GetCursorPos() (x, y int) {
 		switch {
 		case k.waiting, k.reading:
 			cursor = <-k.cursor
+			YieldPoint("cursor.received")
 		default:
+			if verifCursorRead != nil {
+				vbuf := make([]byte, keyScanBufSize)
+
+				vread, verr := verifCursorRead(vbuf)
+				if verr != nil {
+					return disable()
+				}
+
+				cursor = vbuf[:vread]
+
+				break
+			}
+
 			buf := make([]byte, keyScanBufSize)
 
 			read, err := os.Stdin.Read(buf)
@@ -99,7 +114,9 @@ func (k *Keys) readInputFiltered() (keys []byte, err error) {
 	cursor, keys := k.extractCursorPos(buf[:read])
 
 	if len(cursor) > 0 {
+		YieldPoint("report.handoff.before")
 		k.cursor <- cursor
+		YieldPoint("report.handoff.after")
 	}
 
 	return keys, nil
